@@ -468,3 +468,41 @@ def same_evaluation(a, b):
         return [norm(y) for y in it]
     return all(norm(getattr(a, f, None)) == norm(getattr(b, f, None))
                for f in ('status', 'observed_statistic', 'test_distribution', 'quantile'))
+
+
+class other_surroundings:
+    """Context manager: process-wide settings an embedding program may legitimately have changed, none of which the library's
+    answers may depend on - a coarse `decimal` context, terse numpy print options, a different working directory.  Everything
+    is restored on exit.  (Used by the drivers for a deterministic part of their cases.)"""
+
+    def __init__(self, cwd=None):
+        self.cwd = cwd
+
+    def __enter__(self):
+        import decimal
+        import numpy
+        self._ctx = decimal.getcontext().copy()
+        c = decimal.getcontext()
+        c.prec = 1
+        c.rounding = decimal.ROUND_UP
+        self._po = numpy.get_printoptions()
+        numpy.set_printoptions(precision=1, threshold=3, edgeitems=1, suppress=True)
+        self._cwd = os.getcwd()
+        if self.cwd:
+            os.chdir(self.cwd)
+        return self
+
+    def __exit__(self, *a):
+        import decimal
+        import numpy
+        decimal.setcontext(self._ctx)
+        numpy.set_printoptions(**self._po)
+        os.chdir(self._cwd)
+        return False
+
+
+def spell_flag(b, i):
+    """A boolean option in one of the spellings callers use: the literal, a numpy boolean (the result of a comparison or of
+    `.any()`), or 0 / 1."""
+    import numpy
+    return [bool(b), numpy.bool_(b), int(b)][i % 3]
